@@ -20,65 +20,66 @@ type Assump struct {
 }
 
 type Obligation struct {
-	Name   string
-	Unit   string
-	Kind   string
-	Tags   []string
-	PC     *Term
-	Goal   *Term
-	NAss   int
-	Pos    string
-	Text   string
-	Expect string // "unsat" (default): goal must be proved
-	exec   *Exec
+	Name     string
+	Unit     string
+	Kind     string
+	Tags     []string
+	PC       *Term
+	Goal     *Term
+	NAss     int
+	Pos      string
+	Text     string
+	Expect   string // "unsat" (default): goal must be proved
+	exec     *Exec
 	Concrete *string // set for obligations decided by concrete exhaustive evaluation: "" = holds, otherwise the failing case
 }
 
 type Exec struct {
-	prog  *Program
-	cs    *ContractSet
-	unit  *FuncUnit
-	uc    *UnitContract
-	fuc   *UnitContract // function-level contract of the same function (for loops), may be nil
-	info  *types.Info
-	pkg   *types.Package
+	prog *Program
+	cs   *ContractSet
+	unit *FuncUnit
+	uc   *UnitContract
+	fuc  *UnitContract // function-level contract of the same function (for loops), may be nil
+	info *types.Info
+	pkg  *types.Package
 
-	assumptions  []Assump
-	obligations  []*Obligation
-	auditNotes   []string
-	autoUnroll   map[ast.Stmt]*LoopContract
-	anteCovers   []*Obligation // vacuity audit: reachability of the antecedents of A ==> B clauses
-	fresh        int
-	genCounter   int
-	initSyms     map[string]*Term
-	keyTypes     map[string]types.Type
-	unsignedKeys map[string]bool
-	dry          int
-	abstracted   map[string]bool
-	axioms       map[string]bool
-	loopOrd      map[ast.Stmt]int
-	loopModCache map[ast.Stmt]map[string]bool
-	callCount    map[string]int
-	entry        *State // function-entry snapshot for old()
-	inlineDepth  int
-	curFunc      []*FuncUnit // stack of units being executed (inlining)
-	mathFacts    map[string]bool
-	trustedUsed  map[string]bool
-	varNames     map[types.Object]string
-	nameCount    map[string]int
-	errs         []string
-	retBind      map[string]Value
-	specDepth    int
-	safetyCount  map[string]int
-	files        map[string][]byte
-	ghostCalls   map[string]int
-	onceAssumed  map[string]bool
-	ghostAfter   map[string]int
-	callOrd      map[*ast.CallExpr]int
-	caseTerms    []*Term
-	allStmts     []ast.Stmt          // statements of the unit's function (anchor.go)
-	rebound      map[string]ast.Node // anchors re-bound after drift
-	renames      map[string]string   // old local name -> new name, learned from re-bound anchors
+	assumptions    []Assump
+	obligations    []*Obligation
+	auditNotes     []string
+	closureDefs    map[*types.Var]*ast.FuncLit
+	autoUnroll     map[ast.Stmt]*LoopContract
+	anteCovers     []*Obligation // vacuity audit: reachability of the antecedents of A ==> B clauses
+	fresh          int
+	genCounter     int
+	initSyms       map[string]*Term
+	keyTypes       map[string]types.Type
+	unsignedKeys   map[string]bool
+	dry            int
+	abstracted     map[string]bool
+	axioms         map[string]bool
+	loopOrd        map[ast.Stmt]int
+	loopModCache   map[ast.Stmt]map[string]bool
+	callCount      map[string]int
+	entry          *State // function-entry snapshot for old()
+	inlineDepth    int
+	curFunc        []*FuncUnit // stack of units being executed (inlining)
+	mathFacts      map[string]bool
+	trustedUsed    map[string]bool
+	varNames       map[types.Object]string
+	nameCount      map[string]int
+	errs           []string
+	retBind        map[string]Value
+	specDepth      int
+	safetyCount    map[string]int
+	files          map[string][]byte
+	ghostCalls     map[string]int
+	onceAssumed    map[string]bool
+	ghostAfter     map[string]int
+	callOrd        map[*ast.CallExpr]int
+	caseTerms      []*Term
+	allStmts       []ast.Stmt          // statements of the unit's function (anchor.go)
+	rebound        map[string]ast.Node // anchors re-bound after drift
+	renames        map[string]string   // old local name -> new name, learned from re-bound anchors
 	renamesLearned bool
 	loopMap        map[ast.Stmt]int // current loop -> ordinal in the baseline source (0 = none)
 }
@@ -1896,13 +1897,13 @@ func (x *Exec) havocSet(st *State, mod map[string]bool) {
 }
 
 type loopParts struct {
-	stmt   ast.Stmt
-	label  string
-	cond   func(st *State) *Term // nil = true
-	pre    func(st *State)       // executed at the start of each iteration (range variable binding)
-	body   *ast.BlockStmt
-	post   func(st *State) *State
-	ivar   *Loc // induction variable
+	stmt    ast.Stmt
+	label   string
+	cond    func(st *State) *Term // nil = true
+	pre     func(st *State)       // executed at the start of each iteration (range variable binding)
+	body    *ast.BlockStmt
+	post    func(st *State) *State
+	ivar    *Loc   // induction variable
 	visited string // store key of the visited set of a map range loop
 }
 
